@@ -81,8 +81,14 @@ func convertValueToFloat(value any, typ reflect.Type) (float64, error) {
 func Convert(value any, typ reflect.Type) (any, error) { //nolint: gocyclo
 	value = ToLiquid(value)
 	rv := reflect.ValueOf(value)
+	if value == nil && typ.Kind() == reflect.Interface {
+		return nil, nil
+	}
+	// A slice of interfaces may hold Drops; the element-wise conversion below resolves them.
+	toInterfaceSlice := typ.Kind() == reflect.Slice && typ.Elem().Kind() == reflect.Interface &&
+		(rv.Kind() == reflect.Slice || rv.Kind() == reflect.Array)
 	// int.Convert(string) returns "\x01" not "1", so guard against that in the following test
-	if typ.Kind() != reflect.String && value != nil && rv.Type().ConvertibleTo(typ) {
+	if typ.Kind() != reflect.String && value != nil && !toInterfaceSlice && rv.Type().ConvertibleTo(typ) {
 		return rv.Convert(typ).Interface(), nil
 	}
 	if typ == timeType && rv.Kind() == reflect.String {
@@ -213,6 +219,10 @@ func Convert(value any, typ reflect.Type) (any, error) { //nolint: gocyclo
 				if err != nil {
 					return nil, err
 				}
+				if item == nil {
+					result = reflect.Append(result, reflect.Zero(typ.Elem()))
+					continue
+				}
 				result = reflect.Append(result, reflect.ValueOf(item))
 			}
 			return result.Interface(), nil
@@ -222,6 +232,10 @@ func Convert(value any, typ reflect.Type) (any, error) { //nolint: gocyclo
 				item, err := Convert(rv.MapIndex(key).Interface(), typ.Elem())
 				if err != nil {
 					return nil, err
+				}
+				if item == nil {
+					result = reflect.Append(result, reflect.Zero(typ.Elem()))
+					continue
 				}
 				result = reflect.Append(result, reflect.ValueOf(item))
 			}
